@@ -78,13 +78,9 @@ Theorem C10_accessors_agree_args :
 Proof. exact args_accessors. Qed.
 Print Assumptions C10_accessors_agree_args.
 
-(* FieldStorage.  Full statement (false, see the refutation): the same three
-   equations for every field list.  Proved: for field lists without blank
-   values.  Missing: FieldStorage.value answers None for a kept blank value,
-   so getvalue/getfirst give None and getlist drops it. *)
-Theorem C10_accessors_agree_form_partial :
+(* FieldStorage (fields of a urlencoded body, blank values included) *)
+Theorem C10_accessors_agree_form :
   forall fields k,
-    Forall (fun f => snd f <> []) fields ->
     f_getlist fields k = TList (map Some (vals k fields)) /\
     f_getfirst fields k =
       match vals k fields with [] => TNone | v :: _ => TStr v end /\
@@ -93,38 +89,23 @@ Theorem C10_accessors_agree_form_partial :
       | [] => TNone | [v] => TStr v | vs => TList (map Some vs)
       end.
 Proof. exact form_accessors. Qed.
-Print Assumptions C10_accessors_agree_form_partial.
+Print Assumptions C10_accessors_agree_form.
 
-Theorem C10_accessors_agree_form_refuted :
-  exists fields k,
-    f_getlist fields k <> TList (map Some (vals k fields)) /\
-    f_getvalue fields k = TNone /\ vals k fields = [[]].
-Proof. exact form_accessors_blank_refuted. Qed.
-Print Assumptions C10_accessors_agree_form_refuted.
-
-(* JsonDict.  Full statement: getfirst is the first element or the default.
-   Proved: everything except getfirst on a key whose value is the empty
-   list (refuted below: IndexError). *)
-Theorem C10_accessors_agree_jsondict_partial :
+(* JsonDict: getvalue is the value, getlist the list (or the one-element
+   list), getfirst the first element or the default *)
+Theorem C10_accessors_agree_jsondict :
   forall d k,
     match lookup k d with
     | None => jd_getvalue d k = JRNone /\ jd_getfirst d k = JRNone /\
               jd_getlist d k = JRVal (JArr [])
     | Some (JArr l) =>
         jd_getvalue d k = JRVal (JArr l) /\ jd_getlist d k = JRVal (JArr l) /\
-        (forall x r, l = x :: r -> jd_getfirst d k = JRVal x)
+        jd_getfirst d k = match l with [] => JRNone | x :: _ => JRVal x end
     | Some j => jd_getvalue d k = JRVal j /\ jd_getfirst d k = JRVal j /\
                 jd_getlist d k = JRVal (JArr [j])
     end.
 Proof. exact jsondict_accessors. Qed.
-Print Assumptions C10_accessors_agree_jsondict_partial.
-
-Theorem C10_jsondict_getfirst_empty_list_refuted :
-  exists d k, lookup k d = Some (JArr []) /\
-              jd_getlist d k = JRVal (JArr []) /\
-              jd_getfirst d k = JRRaise "IndexError"%string.
-Proof. exact jsondict_getfirst_empty_refuted. Qed.
-Print Assumptions C10_jsondict_getfirst_empty_list_refuted.
+Print Assumptions C10_accessors_agree_jsondict.
 
 Theorem C10_accessors_agree_jsonlist :
   forall l,
